@@ -23,6 +23,14 @@ CHECKS = {
         'answer-by-answer from the recorded trace must all agree with the original.',
    note=CTE_NOTE + ' The per-execution node-hash counter travels with the pickle (identity-hash order is neutralised).',
    technique='stateless choice-tree exploration with trace replay of the mutations on the reloaded program'),
+ 'C14': dict(engine='OUT', category='exploration', design_ref='5 C14',
+   text='The real analyze_compiler_output of all four adapters is run on every output of a per-compiler output grammar '
+        'within the bounds (<=3 files, <=2 errors and <=1 warning per file, every distinct order of the diagnostics, '
+        'message variants, notes/summary/final-newline/filter/crash options, tempfile and user-TMPDIR path alphabets); '
+        'ground truth by construction. Orders and mixes are what a handful of sample outputs cannot cover.',
+   note='kotlinc/groovyc/scalac are not installed: their grammars follow the documented formats (assumption). '
+        'Filter patterns cover a whole diagnostic.',
+   technique='bounded exhaustive enumeration of a compiler-output grammar (all orders/interleavings) against ground truth by construction'),
  'C15': dict(engine='DRV', category='model_checking', design_ref='5 C15',
    text='The real driver (gen_program, check_oracle, update_stats, _run, run, run_parallel) is run on every scripted '
         'session within the bounds: 7 (thorough 9) program behaviours per program x batch layouts up to 3 programs per '
@@ -63,6 +71,8 @@ ENGINES = [
   'kind_free_text': 'stateless deviation-bounded explorer of the choice tree of the real pipeline (ChoiceSource replaces src.utils.random.r)'},
  {'name': 'exhaustive-graphs', 'path': 'mc/props/c19.py', 'serves_properties': ['C19'],
   'kind_free_text': 'enumeration of all digraphs up to 4 (5) vertices'},
+ {'name': 'OUT', 'path': 'mc/ref/output_grammar.py', 'serves_properties': ['C14'],
+  'kind_free_text': 'generative grammar of javac/kotlinc/groovyc/scalac batch output, exhaustively enumerated'},
  {'name': 'DRV', 'path': 'mc/drv.py', 'serves_properties': ['C15'],
   'kind_free_text': 'closed-system harness around hephaestus.py: scripted compiler and stages, virtual mp.Pool with explorer-chosen completion order'},
  {'name': 'HBFS', 'path': 'mc/props/c16.py', 'serves_properties': ['C16', 'C11'],
